@@ -8,6 +8,8 @@ from . import core
 from gen.gen import parse_header, strip_comments  # noqa
 
 LANGS = [('c', ['gcc', '-std=gnu99', '-x', 'c']), ('c++', ['g++', '-std=gnu++11', '-x', 'c++']),
+         # strict ISO modes (define __STRICT_ANSI__) and the oldest C++ dialect
+         ('c-iso', ['gcc', '-std=c99', '-x', 'c']), ('c++98', ['g++', '-std=c++98', '-x', 'c++']),
          # a toolchain that predefines _MSC_VER (clang's MSVC-compatible front end; syntax and constant expressions only)
          ('c-msvc', ['clang', '--target=x86_64-pc-windows-msvc', '-ffreestanding', '-std=gnu99', '-x', 'c', '-isystem', os.path.join(core.ROOT, 'be', 'shim')])]
 
@@ -55,6 +57,7 @@ def compile_probe(inc, h, names, types, bdir):
                 f.write('printf("N %s %%lld\\n", (long long)(%s));\n' % (n, n))
             for t in ts:
                 f.write('printf("T %s %%lld\\n", (long long)sizeof(%s));\n' % (t.replace(' ', '#'), t))
+                f.write('printf("A %s %%lld\\n", (long long)__alignof__(%s));\n' % (t.replace(' ', '#'), t))
             f.write('return 0;}\n')
         r = core.sh(['gcc', '-std=gnu99', '-w', '-I' + inc, src, '-o', exe])
         if r.returncode != 0:
@@ -143,6 +146,7 @@ def lang_facts(inc, hs, facts):
                         c = re.search(r'/\* (sizeof )?(\S+) from (\S+) \*/', lines[int(mm.group(1)) - 1])
                         if c:
                             bad.add(('T' if c.group(1) else 'N', c.group(2)))
+                            bad.add(('A', c.group(2)))
                 bad = {k for k in bad if k in facts_l[lang][h]} or {k for k in facts_l[lang][h] if k[0] == 'T' and k[1].replace(' ', '#') in pp.stderr} 
                 if not bad:
                     break          # the header itself does not compile alone in this language: reported below as 'single'
@@ -161,7 +165,10 @@ def tu_text(hs, facts):
         for (kind, name), v in sorted(facts[h].items()):
             k += 1
             if kind == 'N':
-                out.append('typedef char vsa_%d[((long long)(%s) == %dLL) ? 1 : -1]; /* %s from %s */' % (k, name, v, name, h))
+                # the value, and the name used inside an expression (a macro body that lacks its parentheses)
+                out.append('typedef char vsa_%d[((long long)(%s) == %dLL && (2 * %s) == (2 * (%s)) && (%s * 2) == ((%s) * 2) && (0 - %s) == (0 - (%s))) ? 1 : -1]; /* %s from %s */' % (k, name, v, name, name, name, name, name, name, name, h))
+            elif kind == 'A':
+                out.append('typedef char vsa_%d[(__alignof__(%s) == %d) ? 1 : -1]; /* sizeof %s from %s */' % (k, name, v, name, h))
             else:
                 out.append('typedef char vsa_%d[(sizeof(%s) == %d) ? 1 : -1]; /* sizeof %s from %s */' % (k, name, v, name, h))
     out.append('int vcheck_c20_tu;')
@@ -373,8 +380,8 @@ def run(prop, tier):
         e['count'] += 1
     samples = ['pair avtp/aaf/Aaf.h then avtp/aaf/Pcm.h in C99 and C++ with one static assertion per public name of both headers (value when included alone)',
                'full set of %d headers rotated by 7, C++' % len(hs)]
-    core.finish('C20', tier, t0, res, rule='configurations = each header alone, all %d ordered pairs, full set in %d orders - sorted, reversed, rotations and a sequence-covering set of permutations in which every ordered triple of headers occurs in that relative order (thorough: + 200 further permutations and explicit triples through hub headers) x {gcc -std=gnu99, g++, clang for an MSVC target (predefines _MSC_VER)}; per header a probe structure declared after it must have the layout and stored bytes it has without the header; each TU includes the headers and asserts every public integer name (%d facts: macros, enumerators, sizeof) against its value when the header is included alone; a set/triple failure explained by a failing ordered pair inside it is attributed to the pair' % (len(hs) * (len(hs) - 1), len(full) if tier != 'thorough' else nrot + 2, nfacts),
-                bounds={'headers': len(hs), 'configurations': len(configs), 'languages': 3, 'facts': nfacts, 'facts_not_asserted_in_a_language_where_they_do_not_hold_alone': dropped, 'headers_left_out_of_the_msvc_front_end_for_lack_of_a_system_header': sorted(h for l, h in nohost), 'masked_by_pair': masked},
+    core.finish('C20', tier, t0, res, rule='configurations = each header alone, all %d ordered pairs, full set in %d orders - sorted, reversed, rotations and a sequence-covering set of permutations in which every ordered triple of headers occurs in that relative order (thorough: + 200 further permutations and explicit triples through hub headers) x {gcc -std=gnu99, g++ -std=gnu++11, gcc -std=c99, g++ -std=c++98, clang for an MSVC target (predefines _MSC_VER)}; each name also inside an expression (2*N, N*2, 0-N against the parenthesised form), each type also with its alignment; per header a probe structure declared after it must have the layout and stored bytes it has without the header; each TU includes the headers and asserts every public integer name (%d facts: macros, enumerators, sizeof) against its value when the header is included alone; a set/triple failure explained by a failing ordered pair inside it is attributed to the pair' % (len(hs) * (len(hs) - 1), len(full) if tier != 'thorough' else nrot + 2, nfacts),
+                bounds={'headers': len(hs), 'configurations': len(configs), 'languages': 5, 'facts': nfacts, 'facts_not_asserted_in_a_language_where_they_do_not_hold_alone': dropped, 'headers_left_out_of_the_msvc_front_end_for_lack_of_a_system_header': sorted(h for l, h in nohost), 'masked_by_pair': masked},
                 assumptions=['GNU C as the project uses it (zero-length arrays accepted); -pedantic diagnostics are not violations', 'pairwise conflicts plus the sampled larger sets; a conflict needing three specific headers outside the enumerated sets is not seen in quick'],
                 recipe={'engine': 'c20'}, samples=samples, extra_cov={'compilations': len(jobs), 'planted_bug_selftest': 'a deliberately wrong value for %s %s made its translation unit fail, as required' % k0})
 
